@@ -614,11 +614,14 @@ func AppendFunction(name string) ZlispUserFunction {
 		case *SexpArray:
 			switch name {
 			case "append":
-				return &SexpArray{Val: append(t.Val, args[1]), Env: env, Typ: t.Typ}, nil
+				// (in storage of its own: two arrays appended to the same
+				// array would otherwise share its spare capacity, and
+				// the second append overwrite the first one's element)
+				return &SexpArray{Val: append(append(make([]Sexp, 0, len(t.Val)+1), t.Val...), args[1]), Env: env, Typ: t.Typ}, nil
 			case "appendslice":
 				switch sl := args[1].(type) {
 				case *SexpArray:
-					return &SexpArray{Val: append(t.Val, sl.Val...), Env: env, Typ: t.Typ}, nil
+					return &SexpArray{Val: append(append(make([]Sexp, 0, len(t.Val)+len(sl.Val)), t.Val...), sl.Val...), Env: env, Typ: t.Typ}, nil
 				default:
 					return SexpNull, fmt.Errorf("Second argument of appendslice must be slice")
 				}
